@@ -121,6 +121,10 @@ def run_trace(ck, rng, quick):
                 lines += ["rxi c0 " + c07.IC.hex(), "tick"]
             elif r < 9:
                 lines += ["rxs c0 %d" % -rng.below(3), "tick %d" % rng.range(1, 3)]
+            elif i % 4 == 3 and rng.chance(1, 2):
+                # the socket takes nothing for one round (write returns 0): whatever was to be written then is either written later or
+                # the connection ends -- never dropped in silence
+                lines += ["wmode c0 2", rng.choice(["rxs c0", "rxi c0 " + c07.IC.hex(), "tick"]), "tick", "wmode c0 0", "tick"]
             else:
                 lines += ["tick 2"]
         ncmd = sum(1 for x in lines if x.startswith("rxi c0 "))
@@ -225,14 +229,29 @@ def run_resume(ck, rng, quick):
         a = rng.range(0, 4)
         b = a + rng.range(1, 6)
         how = rng.choice(["peerclose", "stopdt+peerclose", "appclose", "stopdt+appclose", "writefail"])
-        lines = ["cfg k=%d w=8 handlers=64 lowq=100 highq=10" % k, "start", "connect c0 10.0.0.1:1000", "tick", "rx c0 " + apci.STARTDT_ACT.hex(), "tick"]
-        for e in range(1, a + 1):
-            lines.append("enq " + c07.ev_asdu(e).hex())
-        for _ in range(a // k + 2):
-            lines += ["tick %d" % (k + 1), "rxs c0"]
+        lowq, esz = 100, 0
+        if i % 3 == 2:
+            # a small event ring that has wrapped by the time the connection is lost (acknowledged events moved its head up), with the
+            # unacknowledged events lying around the wrap; never so many that anything is displaced
+            lowq, esz = rng.choice([2, 3]), rng.choice([0, 20, 40])
+            a = rng.range(8, 40)
+            b = a + rng.range(2, 4)
+            k = max(k, 3)
+        lines = ["cfg k=%d w=8 handlers=64 lowq=%d highq=10" % (k, lowq), "start", "connect c0 10.0.0.1:1000", "tick", "rx c0 " + apci.STARTDT_ACT.hex(), "tick"]
+        if lowq < 100:
+            # one event at a time, each acknowledgement leaves the newest one unacknowledged: the ring never runs empty (it would start
+            # at offset 0 again), its head moves up and the entries wrap; event `a` stays unacknowledged
+            for e in range(1, a + 1):
+                lines += ["enq " + c07.ev_asdu(e, esz).hex(), "tick 2", "rxs c0 -1", "tick"]
+            a -= 1
+        else:
+            for e in range(1, a + 1):
+                lines.append("enq " + c07.ev_asdu(e).hex())
+            for _ in range(a // k + 2):
+                lines += ["tick %d" % (k + 1), "rxs c0"]
         lines.append("tick 2")
-        for e in range(a + 1, b + 1):
-            lines.append("enq " + c07.ev_asdu(e).hex())
+        for e in range(a + (2 if lowq < 100 else 1), b + 1):
+            lines.append("enq " + c07.ev_asdu(e, esz).hex())
         lines.append("tick %d" % (b - a + 1))
         if how.startswith("stopdt"):
             lines += ["rx c0 " + apci.STOPDT_ACT.hex(), "tick"]
@@ -241,7 +260,7 @@ def run_resume(ck, rng, quick):
         elif how.endswith("appclose"):
             lines += ["appclose c0", "tick 2"]
         else:
-            lines += ["wmode c0 1", "enq " + c07.ev_asdu(b + 1).hex(), "tick 3", "peerclose c0", "tick 2"]
+            lines += ["wmode c0 1", "enq " + c07.ev_asdu(b + 1, esz).hex(), "tick 3", "peerclose c0", "tick 2"]
             b += 1
         lines += ["connect c1 10.0.0.1:1001", "tick", "rx c1 " + apci.STARTDT_ACT.hex(), "tick %d" % (k + 1)]
         for _ in range((b - a) // k + 2):
